@@ -17,6 +17,7 @@ import (
 // contract order; Resume re-applies exactly the enabled modes.
 
 type lop4 struct {
+	Sub   []lop4 // suspend-resume: calls made while suspended
 	Kind  string
 	Flags int
 	CS    int
@@ -195,7 +196,7 @@ func (w *dw) contract(finished bool) {
 			if !started && lib {
 				rule("io-after-stop", "library goroutine does I/O while the tty is stopped")
 			}
-			if !started && c.Kind == "Write" && !lib && w.inCall == "" {
+			if !started && c.Kind == "Write" && !lib && w.inCall == "" && !w.allowAppIO {
 				rule("io-after-stop", "write while the tty is stopped")
 			}
 		}
@@ -234,6 +235,14 @@ func runC04(t *rapid.T) {
 			o.Pause = rapid.SampledFrom([]int{1, 20, 60}).Draw(t, "ms")
 		case "suspend-resume":
 			o.Flags = rapid.IntRange(0, 3).Draw(t, "startfail")
+			ns := rapid.IntRange(0, 3).Draw(t, "nsub")
+			for j := 0; j < ns; j++ {
+				so := lop4{Kind: rapid.SampledFrom([]string{"mouse", "nomouse", "paste", "nopaste", "focus", "nofocus", "title", "curstyle", "cursor"}).Draw(t, "subop")}
+				so.Flags = rapid.IntRange(0, 7).Draw(t, "subflags")
+				so.CS = rapid.IntRange(0, 6).Draw(t, "subcs")
+				so.Title = "suspended-title"
+				o.Sub = append(o.Sub, so)
+			}
 		}
 		ops = append(ops, o)
 	}
@@ -276,6 +285,32 @@ func runC04(t *rapid.T) {
 				pushed = true
 			}
 		}
+		// learn, from the running screen itself, which modes this terminal
+		// description lets the library drive (so the oracle does not repeat
+		// the library's capability heuristics)
+		var capPaste, capFocus bool
+		capMouse := map[int]bool{}
+		sc.EnablePaste()
+		capPaste = w.T.Modes[2004]
+		sc.DisablePaste()
+		sc.EnableFocus()
+		capFocus = w.T.Modes[1004]
+		sc.DisableFocus()
+		sc.EnableMouse()
+		for _, m := range []int{1000, 1002, 1003, 1006} {
+			capMouse[m] = w.T.Modes[m]
+		}
+		sc.DisableMouse()
+		appMouse, appPaste, appFocus := 0, false, false
+		// apply performs one mode/drawing call and tracks what the application asked for
+		var apply func(o lop4)
+		wantModes := func() map[int]bool {
+			return map[int]bool{
+				2004: capPaste && appPaste, 1004: capFocus && appFocus,
+				1000: capMouse[1000] && appMouse&1 != 0, 1002: capMouse[1002] && appMouse&2 != 0,
+				1003: capMouse[1003] && appMouse&4 != 0, 1006: capMouse[1006] && appMouse != 0,
+			}
+		}
 		doSuspend := func(label string) bool {
 			before := snap(w.T)
 			w.inCall = "suspend"
@@ -289,10 +324,7 @@ func runC04(t *rapid.T) {
 			_ = before
 			return true
 		}
-		for _, o := range ops {
-			if w.Fail != nil {
-				return
-			}
+		apply = func(o lop4) {
 			switch o.Kind {
 			case "mouse":
 				var fl []tcell.MouseFlags
@@ -302,16 +334,25 @@ func runC04(t *rapid.T) {
 					}
 				}
 				sc.EnableMouse(fl...)
+				appMouse = o.Flags & 7
+				if len(fl) == 0 {
+					appMouse = 7
+				}
 			case "nomouse":
 				sc.DisableMouse()
+				appMouse = 0
 			case "paste":
 				sc.EnablePaste()
+				appPaste = true
 			case "nopaste":
 				sc.DisablePaste()
+				appPaste = false
 			case "focus":
 				sc.EnableFocus()
+				appFocus = true
 			case "nofocus":
 				sc.DisableFocus()
+				appFocus = false
 			case "curstyle":
 				switch o.Col {
 				case 0:
@@ -329,6 +370,15 @@ func runC04(t *rapid.T) {
 				sc.ShowCursor(o.X, o.Y)
 			case "hidecursor":
 				sc.HideCursor()
+			}
+		}
+		for _, o := range ops {
+			if w.Fail != nil {
+				return
+			}
+			switch o.Kind {
+			case "mouse", "nomouse", "paste", "nopaste", "focus", "nofocus", "curstyle", "title", "cursor", "hidecursor":
+				apply(o)
 			case "draw":
 				st := tcell.StyleDefault
 				switch o.Flags {
@@ -373,6 +423,12 @@ func runC04(t *rapid.T) {
 						}
 					}
 				}
+				// mode changes made while suspended take effect at Resume
+				nlog := len(w.Tty.Log)
+				w.allowAppIO = true // "no I/O after Stop unless the application calls the screen again"
+				for _, so := range o.Sub {
+					apply(so)
+				}
 				w.inCall = "resume"
 				err := sc.Resume()
 				w.inCall = ""
@@ -380,9 +436,17 @@ func runC04(t *rapid.T) {
 					w.fail("C04/resume:error", "Resume failed: %v", err)
 					return
 				}
+				_ = nlog
 				after := snap(w.T)
+				for m, want := range wantModes() {
+					before.modes[m] = want // what the application has enabled now
+				}
 				if d := before.diff(after); d != "" {
-					w.fail("C04/resume:modes", "Resume did not re-establish the modes in force before Suspend: %s", d)
+					var subs []string
+					for _, so := range o.Sub {
+						subs = append(subs, so.Kind)
+					}
+					w.fail("C04/resume:modes", "after Resume the modes are not those the application has enabled (calls while suspended: %v): %s", subs, d)
 					return
 				}
 			}
